@@ -227,6 +227,40 @@ def _mutate(ctx, d, pgpy):
     sp.update_hlen()
     ctx.count('mutated_then_serialised')
     roundtrip_own(ctx, pgpy, bytes(sp.__bytearray__()), {'mutated': 'signature + hashed subpacket'})
+    # adding one subpacket to a parsed signature leaves every other subpacket as it was (self-certifications with full preference lists,
+    # bindings with embedded signatures, certifications with notations): the areas are rebuilt from the parsed objects at that moment
+    for signer, kind, optset in (('ed25519_0', 'uid-self', {'ciphers': ['AES256', 'CAST5'], 'hashes': ['SHA512', 'SHA1'], 'compression': ['BZ2', 'Uncompressed', 'ZIP']}),
+                                 ('rsa1024_0', 'uid-self', {'compression': ['Uncompressed'], 'keyserver': 'hkp://k.example', 'primary': False}),
+                                 ('ecdsa_p256_0', 'bind', {}), ('ed25519_0', 'uid-other', {'notation': {'n@example.org': 'v'}, 'exportable': False}),
+                                 ('ed25519_0', 'revoke-key', {'reason': 'Retired', 'comment': 'c'}), ('ed25519_0', 'key-direct-self', {'usage': []})):
+        from . import C02
+        try:
+            t2 = sigwork.pgpy_triple(signer, kind, 'SHA256', C02._mkopts(optset, sigwork.signer_key(signer), pgpy))
+        except TypeError:
+            continue
+        raw0 = bytes(t2.sig)
+        before = RS.parse_sig(wire.split(raw0)[0].body)
+        for hashed_ in (True, False):
+            q = Packet(bytearray(raw0))
+            q.subpackets.addnew('Policy', hashed=hashed_, uri='https://added.example/')
+            q.update_hlen()
+            out_ = bytes(q.__bytearray__())
+            ctx.count('mutated_then_serialised')
+            ctx.count('evaluations')
+            try:
+                after = RS.parse_sig(wire.split(out_)[0].body)
+            except wire.Malformed as e:
+                ctx.fail('own-packet-reserialises-differently', {'where': {'mutated': 'signature + subpacket', 'kind': kind}, 'err': str(e)})
+                continue
+            for area in ('hsp', 'usp'):
+                b_ = [(t_, c_, bytes(x_)) for t_, c_, x_, r_ in before[area]]
+                a_ = [(t_, c_, bytes(x_)) for t_, c_, x_, r_ in after[area]]
+                added = (area == 'hsp') == hashed_
+                rest = [x for x in a_ if not (x[0] == 26 and x[2] == b'https://added.example/')] if added else a_
+                if sorted(rest) != sorted(b_):
+                    lost = [x[0] for x in b_ if x not in rest]
+                    ctx.fail('adding-a-subpacket-changes-other-subpackets', {'kind': kind, 'signer': signer, 'area': area, 'added_to_hashed': hashed_, 'subpacket_types_changed': lost,
+                                                                           'before': [(x[0], hx(x[2])[:40]) for x in b_ if x not in rest][:4], 'after': [(x[0], hx(x[2])[:40]) for x in rest if x not in b_][:4]})
     # key: protected in place, copy of a parsed Latin-1 user id
     import copy
     # secret keys that arrived with old-format headers, protected in place with every cipher block size: the packet grows by
